@@ -95,7 +95,8 @@ def _m_cap(case, v, args):
     per walk. The check itself establishes the cause: it re-runs the brute force with the walk family restricted to
     those caps (recomputed independently by _reach_caps) and uses the *_beyond_cap kinds only when the library is
     optimal within the caps, i.e. the better witness necessarily traverses some arc more often than its cap."""
-    return case.get("fam") == "cyc" and v.get("kind") in ("lae_not_optimal_beyond_cap", "mpe_not_optimal_beyond_cap", "mpe_unsolved_beyond_cap")
+    return case.get("fam") == "cyc" and v.get("kind") in ("lae_not_optimal_beyond_cap", "mpe_not_optimal_beyond_cap", "mpe_unsolved_beyond_cap",
+                                                         "constrained_optimum_beyond_cap")
 
 
 @matcher("minflowdecompcycles_nonconserving_flow_not_rejected")
